@@ -57,16 +57,40 @@ Theorem C10_cubic_bif_matches_outstanding : forall l s s', steps s l = Some s' -
   bif s' + total removed_of l = bif s + total sent_of l /\ (bif s <= u32_max -> bif s' <= u32_max).
 Proof. exact bif_matches_outstanding. Qed.
 
-Theorem C10_cubic_no_panic_iff_valid : forall l s, steps s l <> None <-> hist_valid (bif s) l = true.
+Theorem C10_cubic_no_panic_iff_valid : forall l s, steps s l <> None <-> hist_valid (bif s) (has_sent s) l = true.
 Proof. exact no_panic_iff_valid. Qed.
 
+(* no saturation: one step keeps the window at or below 2^31 bytes while at most 2^30 bytes have
+   been sent (growth is capped by twice bytes_in_flight_hi); on_mtu_update carries a premise on the
+   window the model itself computes for it *)
+Theorem C10_cubic_no_saturation_step : forall s o a s' S, csat s S -> S + sent_of o <= SENT_CAP ->
+  step s o a = Some s' -> cmtu_step_ok o s' -> csat s' (S + sent_of o).
+Proof. exact step_sat. Qed.
+Theorem C10_cubic_no_saturation : forall s S, csat s S -> wnd s < u32_max.
+Proof. exact csat_wnd. Qed.
+
 (* the executable judgement applied to the implementation's rows accepts every replay of the
-   model, whatever the oracle answers, as long as they meet [replay_ok] (floor assumption at the
-   congestion-avoidance site, u16 datagram sizes, reported window not saturated at u32::MAX) *)
+   model, whatever the oracle answers, when at most 2^30 bytes are sent in the history (generator
+   side: at most 320 operations of at most 65535 bytes) and [replay_ok] holds: the monitored floor
+   assumption at the congestion-avoidance site, u16 datagram sizes, and a window of at most 2^31
+   bytes after on_mtu_update (computed by the model).  No per-step hypothesis on the window. *)
 Theorem C10_cubic_judge_model : forall m t rows, (0 <= m < 65536)%Z ->
+  CubicJudge.sent_ops (decode 0 t) <= SENT_CAP ->
   CubicJudge.replay_ok (cinit (zN m)) (decode 0 t) (snd (next_answer rows)) ->
   Cubic.judge (m :: t) (Cubic.replay (m :: t) rows) = true.
 Proof. exact CubicJudge.judge_replay. Qed.
+
+(* hybrid slow start: N_SAMPLING = 8 samples per round, threshold divisor 8 *)
+Theorem C10_hystart_constants : hss_n_sampling = 8 /\ hss_threshold_dividend = 8.
+Proof. split; reflexivity. Qed.
+(* on_rtt_update changes neither the window, the datagram size, the bytes in flight nor the
+   application-limited flag, and does not leave a recovery period *)
+Theorem C10_cubic_rtt_update_preserves : forall s st now rtt last,
+  mds (on_rtt_update s st now rtt last) = mds s /\ cwnd (on_rtt_update s st now rtt last) = cwnd s /\
+  bif (on_rtt_update s st now rtt last) = bif s /\ uu (on_rtt_update s st now rtt last) = uu s /\
+  tls (hs (on_rtt_update s st now rtt last)) = tls (hs s) /\
+  (forall t r, kind s = Recovery t r -> kind (on_rtt_update s st now rtt last) = Recovery t r).
+Proof. exact on_rtt_update_proj. Qed.
 
 (* ---- BBRv2 ---- *)
 Import Bbr BbrProofs.
@@ -137,10 +161,10 @@ Proof. exact CcGateProofs.gate. Qed.
    (unchanged), then persistent congestion (-> 2400) *)
 Example C10_example :
   option_map (fun s => (wnd s, bif s, kind s))
-    (steps (cinit 1200) [(Sent 1200 1, 0); (Sent 1200 1, 0); (Sent 1200 1, 0); (Lost 1200 false 7, 0);
+    (steps (cinit 1200) [(Sent 1200 1 1, 0); (Sent 1200 1 2, 0); (Sent 1200 1 3, 0); (Lost 1200 false 7, 0);
                          (Lost 1200 false 9, 0); (Lost 1200 true 11, 0)])
   = Some (2400, 0, SlowStart)
-  /\ option_map wnd (steps (cinit 1200) [(Sent 1200 1, 0); (Sent 1200 1, 0); (Lost 1200 false 7, 0); (Ecn 8, 0)]) = Some 8400.
+  /\ option_map wnd (steps (cinit 1200) [(Sent 1200 1 1, 0); (Sent 1200 1 2, 0); (Lost 1200 false 7, 0); (Ecn 8, 0)]) = Some 8400.
 Proof. split; vm_compute; reflexivity. Qed.
 
 Print Assumptions C10_cubic_min_window_is_2_mds.
@@ -156,6 +180,10 @@ Print Assumptions C10_cubic_persistent_collapse.
 Print Assumptions C10_cubic_bif_matches_outstanding.
 Print Assumptions C10_cubic_no_panic_iff_valid.
 Print Assumptions C10_cubic_judge_model.
+Print Assumptions C10_cubic_no_saturation_step.
+Print Assumptions C10_cubic_no_saturation.
+Print Assumptions C10_hystart_constants.
+Print Assumptions C10_cubic_rtt_update_preserves.
 Print Assumptions C10_bbr_min_window_is_4_mds.
 Print Assumptions C10_bbr_min_window_no_overflow.
 Print Assumptions C10_bbr_floor_set_cwnd.
